@@ -9,6 +9,11 @@
     c17_member            entity(o, in_(o, concatenate(t))) selects exactly the domain objects of
                           `o` that are in the combined list, in domain order
     c17_not_member        the negated test selects exactly the others (the complement)
+    c17_concat_value_frame   the single value is the same under EVERY outer binding that leaves the operand's
+                          variable unbound (the aggregation is not correlated with anything outside it)
+    c17_concat_value_bound   once bound, the node answers with its binding (no second aggregation)
+    c17_concat_after_var / c17_concat_before_var   selected next to another variable, in either order: one
+                          row per object of that variable, every row carrying the same combined list
 -/
 import EqlModel.Lemmas.Closed
 import EqlModel.Props.C03
@@ -74,5 +79,68 @@ theorem c17_not_member [Inhabited V] (hW : W.Lawful) (p g x : VarId) (t : Term V
   simp only [build, buildIn, Gen.inCmp, if_true, neg, Gen.invOp]
   rw [c17_member_op W D p g x t h hx .notContains]
   simp only [hW.nc_c]
+
+/-- The single value does not depend on what else is bound: under every binding that leaves the
+    operand's variable and the node itself unbound, `concatenate(t)` has one output, the combined list. -/
+theorem c17_concat_value_frame [Inhabited V] (p g : VarId) (t : Term V) (h : ConcatWF p g t)
+    (β : Bnd V) (hp : β.lookup p = none) (hg : β.lookup g = none) :
+    evalTerm W D (.concat g t) β = [((g, combined W D p t) :: β, combined W D p t)] := by
+  simp only [evalTerm, hg, term_dist_frame W D p β hp t h.noFlat h.vars h.nonempty, List.flatMap_map,
+    combined]
+
+/-- Once computed the node answers with its own binding (no second aggregation). -/
+theorem c17_concat_value_bound [Inhabited V] (g : VarId) (t : Term V) (β : Bnd V) (a : V)
+    (hg : β.lookup g = some a) :
+    evalTerm W D (.concat g t) β = [(β, a)] := by
+  simp only [evalTerm, hg]
+
+/-- Selected NEXT TO another variable: one row per object of that variable, each carrying the
+    same combined list - in either order of selection. -/
+theorem c17_concat_after_var [Inhabited V] (p g x : VarId) (t : Term V) (h : ConcatWF p g t)
+    (hxp : x ≠ p) (hxg : x ≠ g) :
+    rows W D ⟨[.var x, .concat g t], none⟩ = (D x).map fun o => [o, combined W D p t] := by
+  have hx : List.lookup x ([] : Bnd V) = none := rfl
+  have hv : evalTerm W D (.var x) [] = (D x).map fun o => ([(x, o)], o) := by
+    simp only [evalTerm, hx]
+  have hstep : ∀ o : V, evalArgs W D [.concat g t] [(x, o)] =
+      [((g, combined W D p t) :: [(x, o)], [combined W D p t])] := by
+    intro o
+    have hp : List.lookup p [(x, o)] = none := by
+      have : (p == x) = false := by simp [Ne.symm hxp]
+      simp [List.lookup, this]
+    have hg : List.lookup g [(x, o)] = none := by
+      have : (g == x) = false := by simp [Ne.symm hxg]
+      simp [List.lookup, this]
+    simp only [evalArgs, c17_concat_value_frame W D p g t h [(x, o)] hp hg, List.flatMap_cons,
+      List.flatMap_nil, List.append_nil, List.map_cons, List.map_nil]
+  have hargs : evalArgs W D [.var x, .concat g t] [] =
+      (D x).map fun o => ((g, combined W D p t) :: [(x, o)], [o, combined W D p t]) := by
+    rw [evalArgs, hv, List.flatMap_map]
+    simp only [hstep, List.map_cons, List.map_nil]
+    induction D x with
+    | nil => rfl
+    | cons o os ih => simp [ih]
+  simp only [rows, List.flatMap_cons, List.flatMap_nil, List.append_nil, hargs, List.map_map]
+  rfl
+
+theorem c17_concat_before_var [Inhabited V] (p g x : VarId) (t : Term V) (h : ConcatWF p g t)
+    (hxg : x ≠ g) :
+    rows W D ⟨[.concat g t, .var x], none⟩ = (D x).map fun o => [combined W D p t, o] := by
+  have hlx : List.lookup x [(g, combined W D p t)] = none := by
+    have : (x == g) = false := by simp [hxg]
+    simp [List.lookup, this]
+  have hv : evalArgs W D [.var x] [(g, combined W D p t)] =
+      (D x).map fun o => ((x, o) :: [(g, combined W D p t)], [o]) := by
+    simp only [evalArgs, evalTerm, hlx, List.flatMap_map, List.map_cons, List.map_nil]
+    induction D x with
+    | nil => rfl
+    | cons o os ih => simp [ih]
+  have hargs : evalArgs W D [.concat g t, .var x] [] =
+      (D x).map fun o => ((x, o) :: [(g, combined W D p t)], [combined W D p t, o]) := by
+    rw [evalArgs, c17_concat_value W D p g t h]
+    simp only [List.flatMap_cons, List.flatMap_nil, List.append_nil, hv, List.map_map]
+    rfl
+  simp only [rows, List.flatMap_cons, List.flatMap_nil, List.append_nil, hargs, List.map_map]
+  rfl
 
 end Eql
